@@ -208,6 +208,107 @@ def run(ck, tier, rnd, fixed, scale=1.0, opk_free=None):
             pass
 
 
+def sample_source_job(job):
+    """A sample source re-laid-out line-wise (every physical line is a unit): blank / comment lines, EOL kind,
+    trailing blanks, letter case.  Dump compared through the spec's LineMap."""
+    rel, text, lay = job
+    lines = text.split("\n")
+    if lines and lines[-1] == "":
+        lines = lines[:-1]
+    n = len(lines)
+    before = [[] for _ in range(n)]
+    for op in lay["ops"]:
+        if op["k"] in ("blank", "comment"):
+            before[op["at"] - 1].append("" if op["k"] == "blank" else "! layout comment")
+    fixed_src = rel.lower().endswith((".f", ".for", ".f77"))
+    phys = []
+    for i, l in enumerate(lines):
+        for b in before[i]:
+            phys.append(("C layout comment" if fixed_src and b else b))
+        phys.append(l)
+    out = []
+    for l in phys:
+        if l.startswith("#") or lay["case"] == "asis":
+            out.append(l)
+        else:
+            # comments keep their text (doc comments are content); only code outside strings changes case
+            code = l
+            cpos = None
+            q = None
+            for k, ch in enumerate(l):
+                if q:
+                    if ch == q:
+                        q = None
+                elif ch in "'\"":
+                    q = ch
+                elif ch == "!":
+                    cpos = k
+                    break
+            if fixed_src and l[:1] in "cC*!dD":
+                out.append(l)
+                continue
+            head = l if cpos is None else l[:cpos]
+            tail = "" if cpos is None else l[cpos:]
+            out.append(layout.change_case(head, lay["case"]) + tail)
+    if lay["trail"]:
+        out = [l + "   " for l in out]
+    new_text = layout.EOLS[lay["eol"]].join(out) + layout.EOLS[lay["eol"]]
+    fname = "s" + os.path.splitext(rel)[1]
+    base = dump(text, fname, "")
+    new = dump(new_text, fname, "")
+    lmap = lay["lmap"]
+
+    def m(l0):
+        return lmap[l0] - 1 if 0 <= l0 < len(lmap) else l0 + (lmap[-1] - len(lmap) if lmap else 0)
+    bad = []
+    want_syms = sorted((nm, k, c, m(a), m(b)) for nm, k, c, a, b in base["symbols"])
+    if want_syms != sorted(new["symbols"]):
+        bad.append(({"diff:symbols", "source:sample"}, {"expected": want_syms[:20], "observed": sorted(new["symbols"])[:20]}))
+    want_d = sorted((c, s, m(l)) for c, s, l in base["diags"])
+    if want_d != sorted(new["diags"]):
+        bad.append(({"diff:diagnostics", "source:sample"}, {"expected": want_d[:20], "observed": sorted(new["diags"])[:20]}))
+    if base["fixed"] != new["fixed"]:
+        bad.append(({"form:changed", "source:sample"}, {"before": base["fixed"], "after": new["fixed"]}))
+    tags = {"op:" + o["k"] for o in lay["ops"]}
+    return [(t | tags, dict(x, file=rel, ops=lay["ops"])) for t, x in bad]
+
+
+def sample_sources_part(ck, tier, rnd):
+    from .common import REPO
+    import re
+    src = os.path.join(REPO, "test", "test_source")
+    files = []
+    for root, _d, fs in sorted(os.walk(src)):
+        for fn in sorted(fs):
+            if re.search(r"\.(f|for|f90|f95|f03|f08|F90|F)$", fn):
+                p = os.path.join(root, fn)
+                try:
+                    t = open(p, encoding="utf-8").read().replace("\r\n", "\n").replace("\t", " ")
+                except (OSError, UnicodeDecodeError):
+                    continue
+                if 3 <= t.count("\n") <= 80:
+                    files.append((os.path.relpath(p, src), t))
+    rnd.shuffle(files)
+    files = files[: (10 if tier == "quick" else len(files))]
+    jobs = []
+    for rel, t in files:
+        n = len(t.split("\n")) - (1 if t.endswith("\n") else 0)
+        lays, _ = layouts_for(n, 3, '{"blank", "comment", "eol", "case", "trail"}', nsim=16 if tier == "quick" else 60, seed=ck.seed + n)
+        for lay in lays[: (4 if tier == "quick" else 20)]:
+            if lay["ops"]:
+                jobs.append((rel, t, lay))
+    for i, status, val in par.pmap(sample_source_job, jobs, item_timeout=180):
+        ck.count(key=("sample", jobs[i][0], json.dumps(jobs[i][2]["ops"], sort_keys=True)))
+        if status != "done":
+            ck.violation({"replay:" + status, "source:sample"}, {"kind": "sample", "file": jobs[i][0], "detail": val})
+            continue
+        ck.traces += 1
+        for tags, detail in val:
+            detail["kind"] = "sample"
+            ck.violation(tags, detail)
+    ck.note("sample_source_layouts", len(jobs))
+
+
 def main(tier, seed):
     ck = Check("C13", tier, seed)
     ck.assumptions = [
@@ -216,6 +317,7 @@ def main(tier, seed):
         "the dump compared is documentSymbol (name, kind, container, first/last line) plus diagnostics (class, severity, line), lines mapped through the spec's LineMap",
     ]
     run(ck, tier, random.Random(seed), fixed=False)
+    sample_sources_part(ck, tier, random.Random(seed + 2))
     return ck.finish()
 
 
